@@ -54,7 +54,8 @@ ASSUMPTIONS = [
     "configurations whose pad_bar padding is not a whole number of ticks are not generated",
 ]
 CHUNK = 4
-CALL_TIMEOUT = 6.0
+CALL_CPU_LIMIT = 5.0  # seconds of CPU per export/import call (normal: < 0.05 s)
+CASE_WALL_LIMIT = 300.0  # wall-clock backstop per case
 
 _TMP = None
 
@@ -73,20 +74,29 @@ def _cleanup():
         _TMP = None
 
 
+def _on_cpu_limit(signum, frame):
+    raise Hang("call used more than %.0f s of CPU time" % CALL_CPU_LIMIT)
+
+
 def timed(fn, *a, **kw):
-    """run one call of the implementation under its own watchdog (the runner's alarm handler raises Hang)"""
+    """run one call of the implementation under a CPU-time watchdog (a loop that never ends burns CPU; a
+    wall-clock limit would misfire on a busy machine)"""
     import signal
 
-    signal.setitimer(signal.ITIMER_REAL, CALL_TIMEOUT)
+    signal.signal(signal.SIGPROF, _on_cpu_limit)
+    signal.setitimer(signal.ITIMER_PROF, CALL_CPU_LIMIT)
     try:
         return fn(*a, **kw)
     finally:
-        signal.setitimer(signal.ITIMER_REAL, 0)
+        signal.setitimer(signal.ITIMER_PROF, 0)
 
 
-def fr(x):
-    return "%d/%d" % (x.numerator, x.denominator) if isinstance(x, Fraction) and x.denominator != 1 else (
-        int(x) if isinstance(x, Fraction) else x)
+def msdiff(exp, got, n=4):
+    """multiset difference for reports: (expected but not found, found but not expected)"""
+    from collections import Counter
+
+    ce, cg = Counter(exp), Counter(got)
+    return sorted((ce - cg).elements())[:n], sorted((cg - ce).elements())[:n]
 
 
 def js(x):
@@ -217,7 +227,7 @@ def read_import(sc):
                 if k > 10000:
                     raise AssertionError("tie chain does not end")
             voices.setdefault(n.voice, []).append((Fraction(int(n.start.t), d), Fraction(int(dur), d), int(n.midi_pitch)))
-        tsl = [(Fraction(int(o.start.t)), int(o.beats), int(o.beat_type)) for o in p.iter_all(S.TimeSignature)]
+        tsl = [(Fraction(int(o.start.t), d), int(o.beats), int(o.beat_type)) for o in p.iter_all(S.TimeSignature)]
         ksl = sorted((Fraction(int(o.start.t), d), int(o.fifths), "minor" if o.mode == "minor" else "major")
                      for o in p.iter_all(S.KeySignature))
         tempos = [(Fraction(int(o.start.t), d), o.bpm, o.unit) for o in p.iter_all(S.Tempo)]
@@ -257,7 +267,8 @@ def run_config(res, spec, model, sc, cfg, ctx, keep=None):
     from partitura.io.exportmidi import save_score_midi
     from partitura.io.importmidi import load_score_midi
 
-    mode, pol, minppq, vel, out, inp = cfg
+    mode, pol, minppq, vel, out, inp = cfg[:6]
+    enc = cfg[6] if len(cfg) > 6 else "plain"
     detail = "%s cfg=%s" % (ctx, cfg)
     exp = model.expected(mode, pol, minppq)
     if not exp["integral"]:
@@ -318,10 +329,9 @@ def run_config(res, spec, model, sc, cfg, ctx, keep=None):
     outcome = "ok"
     if exp_flat != got_flat:
         if not probs:
-            miss = [x for x in exp_flat if x not in got_flat][:4]
-            extra = [x for x in got_flat if x not in exp_flat][:4]
-            res.fail("note-ticks", expected=js(miss or exp_flat[:6]), observed=js(extra or got_flat[:6]),
-                     where="save_score_midi: note ticks", detail=detail + " ppq=%d (expected-not-found vs found-not-expected)" % ppq)
+            miss, extra = msdiff(exp_flat, got_flat)
+            res.fail("note-ticks", expected=js(miss), observed=js(extra),
+                     where="save_score_midi: note ticks", detail=detail + " ppq=%d (on, off, pitch): expected-not-found vs found-not-expected" % ppq)
         outcome = "ticks-mismatch"
     else:
         # --- grouping into tracks / channels, with the key signatures of the parts in each track
@@ -377,7 +387,17 @@ def run_config(res, spec, model, sc, cfg, ctx, keep=None):
     # --- through the importer
     res.transitions += 1
     try:
-        if out == "none":
+        if enc == "zerovel":
+            # the equivalent standard encoding of the same file: every note_off as a note_on with velocity 0
+            mf2 = mido.MidiFile(type=mf.type, ticks_per_beat=mf.ticks_per_beat)
+            for tr in mf.tracks:
+                mf2.tracks.append(mido.MidiTrack(
+                    mido.Message("note_on", note=m.note, velocity=0, channel=m.channel, time=m.time) if m.type == "note_off" else m
+                    for m in tr))
+            path2 = os.path.join(_tmpdir(), "z.mid")
+            mf2.save(path2)
+            sc2 = timed(load_score_midi, path2, part_voice_assign_mode=mode)
+        elif out == "none":
             sc2 = timed(load_score_midi, mf_ret, part_voice_assign_mode=mode)
         elif out == "fobj" and mode == 0:
             sc2 = timed(partitura.load_score, path)
@@ -391,15 +411,16 @@ def run_config(res, spec, model, sc, cfg, ctx, keep=None):
         res.fail("import-runs", kind="exception", where=innermost_partitura_frame(e), observed=exc_text(e), detail=detail)
         return outcome + "/import-exception"
     parts = [p for _, ps in items for p in ps]
-    bad_d = [p["d"] for p in parts if p["d"] != ppq]
+    for p in parts:
+        # the divisions chosen by the importer are free: positions are compared in quarters (x ppq = ticks)
+        p["ts"] = [(q * ppq, a, b) for q, a, b in p["ts"]]
     exp_q = sorted((n["on"] / ppq, (n["off"] - n["on"]) / ppq, n["pitch"]) for n in exp["notes"])
     got_q = sorted(x for p in parts for v in p["voices"].values() for x in v)
     if exp_q != got_q:
-        miss = [x for x in exp_q if x not in got_q][:4]
-        extra = [x for x in got_q if x not in exp_q][:4]
-        res.fail("reimport-notes", expected=js(miss or exp_q[:6]), observed=js(extra or got_q[:6]),
+        miss, extra = msdiff(exp_q, got_q)
+        res.fail("reimport-notes", expected=js(miss), observed=js(extra),
                  where="load_score_midi: notes (onset_quarter, duration_quarter, pitch)",
-                 detail=detail + " imported divisions=%r" % ([p["d"] for p in parts],))
+                 detail=detail + " imported divisions=%r: expected-not-found vs found-not-expected" % ([p["d"] for p in parts],))
         return outcome + "/reimport-notes-mismatch"
     # grouping: top-level items > parts > voices > notes, with the key signatures of each part
     # (key signature events carry no channel: an imported part shows those of every part written to its track)
@@ -428,8 +449,6 @@ def run_config(res, spec, model, sc, cfg, ctx, keep=None):
                      observed=js([[x[1] for x in ps] for _, ps in g_canon]), where="load_score_midi: key signatures",
                      detail=detail)
         outcome += "/reimport-grouping-mismatch"
-    if bad_d:
-        res.fail("reimport-divisions", expected=ppq, observed=bad_d, where="load_score_midi: quarter duration", detail=detail)
     for i, p in enumerate(parts):
         tsd = exp["ts"]
         if tsd["kind"] == "exact" and not any(s for s in tsd["sets"]):
@@ -468,6 +487,11 @@ def run_config(res, spec, model, sc, cfg, ctx, keep=None):
 
 
 def eval_case(case):
+    import signal
+
+    # every call of the implementation has its own CPU-time limit (see timed); the runner's wall-clock alarm
+    # is only a backstop and is widened so that a stalled machine does not look like a hang
+    signal.setitimer(signal.ITIMER_REAL, CASE_WALL_LIMIT)
     spec = case["score"]
     cfgs = case["configs"]
     res = CaseResult(states=0, transitions=0, traces=0)
@@ -560,11 +584,13 @@ def cfg_modes(i, model):
         for pol in M.POLICIES:
             out.append((mode, pol, (0, 7, 480)[k % 3], 64, "path", "score"))
             k += 1
+    for mode in M.MODES:
+        out.append((mode, M.POLICIES[(i + mode) % 3], 0, 64, "path", "score", "zerovel"))
     return out
 
 
 def cfg_touch(i, model):
-    return [(mode, "shift", 0, 64, "path", "score") for mode in M.MODES]
+    return [(mode, "shift", 0, 64, "path", "score", enc) for mode in M.MODES for enc in ("plain", "zerovel")]
 
 
 def cfg_divchange(i, model):
@@ -615,10 +641,11 @@ def spaces(tier, seed):
                     % (M.PICKUP_METERS,)))
     sp.append(Space("modes", lambda: with_configs(M.gen_modes(), cfg_modes), True,
                     "%d part/group/voice structures x %d divisions patterns x pickup yes/no; 6 modes x 3 policies (full), "
-                    "minimum_ppq cycled over {0,7,480}" % (len(M.STRUCTURES), len(M.DIV_PATTERNS))))
+                    "minimum_ppq cycled over {0,7,480}; plus one zero-velocity re-encoding import per mode" % (len(M.STRUCTURES), len(M.DIV_PATTERNS))))
     sp.append(Space("touch", lambda: with_configs(M.gen_touch(), cfg_touch), True,
                     "3 touching notes of one pitch assigned in all 27 ways to (part 1 voice 1, part 1 voice 2, part 2), "
-                    "6 grace-note constellations; divisions {1,6}; 6 modes"))
+                    "6 grace-note constellations; divisions {1,6}; 6 modes x {file as written, same file with note-offs "
+                    "re-encoded as zero-velocity note-ons} for the import"))
     sp.append(Space("divchange", lambda: with_configs(M.gen_divchange(), cfg_divchange), True,
                     "divisions change a->b for all ordered pairs of %s at a barline or mid-bar, 4 triples; pickup yes/no; "
                     "3 policies x minimum {0, lcm+1}, modes cycled" % (M.DIVCHANGE_VALUES,)))
